@@ -29,6 +29,10 @@ pub enum SOp {
     /// fetch_update with `|x| Some(x wrapping_add v)` (bool: xor, ptr: replace)
     FupdSome(usize, Ordering, Ordering),
     FupdNone(Ordering, Ordering),
+    /// fetch_update whose closure, at its first call, stores `v` into the atomic itself and asks
+    /// for an update (the internal compare-exchange then fails unless `v` is the current value);
+    /// at later calls it asks for an update again (true) or declines (false)
+    FupdRe(usize, bool),
     /// with_mut(|x| { let old = *x; *x = v; old })
     WithMut(usize),
     Unsync,
@@ -43,6 +47,8 @@ const RMWS: [Ordering; 5] = [Relaxed, Acquire, Release, AcqRel, SeqCst];
 fn alphabet(nv: usize, news: &[usize], kind: u8) -> Vec<SOp> {
     let mut a = vec![SOp::Load(SeqCst), SOp::Unsync, SOp::FupdNone(SeqCst, SeqCst)];
     for v in 0..nv {
+        a.push(SOp::FupdRe(v, false));
+        a.push(SOp::FupdRe(v, true));
         a.push(SOp::Store(v, SeqCst));
         a.push(SOp::Swap(v, SeqCst));
         a.push(SOp::FupdSome(v, SeqCst, SeqCst));
@@ -114,7 +120,7 @@ fn ordering_variants(op: SOp) -> Vec<SOp> {
                 }
             }
         }
-        SOp::WithMut(_) | SOp::Unsync => out.push(op),
+        SOp::WithMut(_) | SOp::Unsync | SOp::FupdRe(_, _) => out.push(op),
     }
     out
 }
@@ -208,6 +214,38 @@ macro_rules! int_runner {
                     SOp::FupdNone(so, fo) => {
                         lr.push(format!("{:?}", l.fetch_update(so, fo, |_| None)));
                         sr.push(format!("{:?}", s.fetch_update(so, fo, |_| None)));
+                    }
+                    SOp::FupdRe(x, again) => {
+                        let mut calls = 0;
+                        lr.push(format!(
+                            "{:?}",
+                            l.fetch_update(SeqCst, SeqCst, |y| {
+                                calls += 1;
+                                if calls == 1 {
+                                    l.store(v(x), SeqCst);
+                                    Some(y.wrapping_add(1))
+                                } else if again && calls < 50 {
+                                    Some(y.wrapping_add(1))
+                                } else {
+                                    None
+                                }
+                            })
+                        ));
+                        let mut calls = 0;
+                        sr.push(format!(
+                            "{:?}",
+                            s.fetch_update(SeqCst, SeqCst, |y| {
+                                calls += 1;
+                                if calls == 1 {
+                                    s.store(v(x), SeqCst);
+                                    Some(y.wrapping_add(1))
+                                } else if again && calls < 50 {
+                                    Some(y.wrapping_add(1))
+                                } else {
+                                    None
+                                }
+                            })
+                        ));
                     }
                     SOp::WithMut(x) => {
                         lr.push(format!(
@@ -306,6 +344,38 @@ fn run_bool(init: usize, seq: &[SOp], vals: &[i128]) -> (Vec<R>, Vec<R>) {
                 lr.push(format!("{:?}", l.fetch_update(so, fo, |_| None)));
                 sr.push(format!("{:?}", s.fetch_update(so, fo, |_| None)));
             }
+            SOp::FupdRe(x, again) => {
+                let mut calls = 0;
+                lr.push(format!(
+                    "{:?}",
+                    l.fetch_update(SeqCst, SeqCst, |y| {
+                        calls += 1;
+                        if calls == 1 {
+                            l.store(v(x), SeqCst);
+                            Some(!y)
+                        } else if again && calls < 50 {
+                            Some(!y)
+                        } else {
+                            None
+                        }
+                    })
+                ));
+                let mut calls = 0;
+                sr.push(format!(
+                    "{:?}",
+                    s.fetch_update(SeqCst, SeqCst, |y| {
+                        calls += 1;
+                        if calls == 1 {
+                            s.store(v(x), SeqCst);
+                            Some(!y)
+                        } else if again && calls < 50 {
+                            Some(!y)
+                        } else {
+                            None
+                        }
+                    })
+                ));
+            }
             SOp::Unsync => {
                 lr.push(format!("{}", unsafe { l.unsync_load() }));
                 sr.push(format!("{}", *s.get_mut()));
@@ -360,6 +430,38 @@ fn run_ptr(init: usize, seq: &[SOp], vals: &[i128]) -> (Vec<R>, Vec<R>) {
             SOp::FupdNone(so, fo) => {
                 lr.push(format!("{:?}", l.fetch_update(so, fo, |_| None)));
                 sr.push(format!("{:?}", s.fetch_update(so, fo, |_| None)));
+            }
+            SOp::FupdRe(x, again) => {
+                let mut calls = 0;
+                lr.push(format!(
+                    "{:?}",
+                    l.fetch_update(SeqCst, SeqCst, |_| {
+                        calls += 1;
+                        if calls == 1 {
+                            l.store(v(x), SeqCst);
+                            Some(v(0))
+                        } else if again && calls < 50 {
+                            Some(v(0))
+                        } else {
+                            None
+                        }
+                    })
+                ));
+                let mut calls = 0;
+                sr.push(format!(
+                    "{:?}",
+                    s.fetch_update(SeqCst, SeqCst, |_| {
+                        calls += 1;
+                        if calls == 1 {
+                            s.store(v(x), SeqCst);
+                            Some(v(0))
+                        } else if again && calls < 50 {
+                            Some(v(0))
+                        } else {
+                            None
+                        }
+                    })
+                ));
             }
             SOp::WithMut(x) => {
                 lr.push(format!(
